@@ -79,3 +79,10 @@ Example min0_i32_example :
   | _ => False
   end.
 Proof. vm_compute. repeat split; reflexivity. Qed.
+
+Example min0_u32_example :
+  match build_from_u32 [4294967295; 0; 7] with
+  | Ok (m, mn) => mn = 0 /\ bits m = 32 /\ get m 0 = Ok 4294967295 /\ get m 2 = Ok 7
+  | _ => False
+  end.
+Proof. vm_compute. repeat split; reflexivity. Qed.
